@@ -80,6 +80,25 @@ class MachineBase(object):
         if key is not None:
             self.distinct.setdefault(prop, set()).add(h64(key))
 
+    def op_ambient(self, op):
+        """A call of one of the library's pure helper functions somewhere else in the process (another tool, another
+        thread of the same program...).  Whatever it returns or raises, it must not change how metadata objects behave."""
+        import productmd.common as c
+        import productmd.composeinfo as ci
+        import productmd.images as im
+        fns = {"create_release_id": c.create_release_id, "parse_release_id": c.parse_release_id, "parse_nvra": c.parse_nvra,
+               "is_valid_release_type": c.is_valid_release_type, "is_valid_release_short": c.is_valid_release_short,
+               "is_valid_release_version": c.is_valid_release_version, "split_version": c.split_version,
+               "get_date_type_respin": ci.get_date_type_respin, "verify_label": ci.verify_label, "identify_image": im.identify_image}
+        fn = fns.get(op["fn"])
+        if fn is None:
+            return "noop"
+        try:
+            fn(*op.get("args", []))
+            return "ok"
+        except Exception as e:
+            return "raised:" + type(e).__name__
+
     def watching(self, prop):
         """Pure-observer invariants of other properties are not evaluated in a run that focuses on one property
         (so that they cannot cut the run before the focus property's own invariants are reached)."""
@@ -218,6 +237,27 @@ def case_for(prop, tier, seed, idx):
     rng = random.Random(rs)
     case = pm.generate(rng, tier, idx)
     case.setdefault("cfg", {})
+    # every restart may be preceded by a public peek at the fresh object and / or by a load the object refuses first
+    for o in case["ops"]:
+        if o.get("op") == "restart" and "pre" not in o:
+            r = rng.random()
+            if r < 0.12:
+                o["pre"] = ["peek"]
+            elif r < 0.24:
+                o["pre"] = [rng.choice(["garbage", "empty", "wrong-type"])]
+            elif r < 0.28:
+                o["pre"] = ["peek", rng.choice(["garbage", "wrong-type"])]
+    if rng.random() < 0.15 and case["ops"]:
+        amb = [{"op": "ambient", "fn": "create_release_id", "args": ["f", "22", rng.choice(["bogus", "security-respin", "beta", "ga", "updates"])]},
+               {"op": "ambient", "fn": "create_release_id", "args": ["rhel", "7.0", "ga", "f", "22", rng.choice(["bogus", "lts"])]},
+               {"op": "ambient", "fn": "parse_release_id", "args": [rng.choice(["f-22-bogus", "rhel-7.0-updates-testing", "x-1"])]},
+               {"op": "ambient", "fn": "is_valid_release_type", "args": [rng.choice(["bogus", "GA", "x-y"])]},
+               {"op": "ambient", "fn": "parse_nvra", "args": [rng.choice(["bash-0:4.3-1.fc20.x86_64.rpm", "junk", "a-1-2.src"])]},
+               {"op": "ambient", "fn": "get_date_type_respin", "args": [rng.choice(["F-22-20150522.n.3", "nothing", "F-22-20150522.zz.1"])]},
+               {"op": "ambient", "fn": "verify_label", "args": [rng.choice(["RC-1.0", "GA", None])]},
+               {"op": "ambient", "fn": "identify_image", "args": [{"type": "dvd", "arch": "x86_64"}]}]
+        for _ in range(rng.randint(1, 3)):
+            case["ops"].insert(rng.randint(1, len(case["ops"])), rng.choice(amb))
     case["cfg"].setdefault("order_seed", rs & 0xFFFFFFFF)
     case["cfg"].setdefault("focus", prop)
     return json.loads(cjson(case))      # force JSON-ability (and a private copy)
